@@ -279,7 +279,8 @@ def check_C06(tier):
     G.check_decode_table(rep, cfgs + [cf16], lambda cf: range(0, cf.umax + 1, 1 if cf.umax == 255 else 97))
     # histories with placed draws, refills forced
     n = 60 if quick else 600
-    gt = [G.random_history(rng, focus=rng.choice([None, "refill", "refill", "ceiling"])) for _ in range(n)]
+    # every entry point that can consume draws (add, update, add_ngram, update_ngram)
+    gt = [G.random_history(rng, focus=rng.choice([None, "refill", "refill", "ceiling", "batch", "batch"])) for _ in range(n)]
     for i in range(0, n, 150):
         G.validate(rep, gt[i:i + 150], G.INV_C06, G.PROP_C06, tag="c06gt%d" % i)
     _sample_log(rep, gt)
